@@ -54,6 +54,13 @@ func fields(v absint.Val) ([]field, bool) {
 	}
 	switch s.Op {
 	case "|":
+		// field | 1...10...0: the sign extension of one field (the field stays
+		// what it is; whether the extension is right is E2's question)
+		for i, arg := range s.Args {
+			if c, isC := u64(arg); isC && c != 0 && (^c)&(^c+1) == 0 {
+				return fields(s.Args[1-i])
+			}
+		}
 		a, ok1 := fields(s.Args[0])
 		b, ok2 := fields(s.Args[1])
 		return append(a, b...), ok1 && ok2
@@ -111,6 +118,7 @@ type eng struct {
 	readers map[int]rd
 	opField *field
 	globals map[*ssa.Global]*absint.Cell
+	addrFns map[*ssa.Function]int // the address accessors, by operand slot
 }
 
 type rd struct{ kind, addr field }
@@ -151,10 +159,12 @@ func (e *eng) instr() {
 	encFn := p.Func(bt, "EncodeSrc")
 	newFn := p.Func(bt, "New")
 	conv := p.Func(bt, "convImm")
-	if encFn == nil || newFn == nil || conv == nil {
-		s.Unk("ANCHOR", "bytecode.EncodeSrc / New / convImm", "-", "functions not found")
+	if encFn == nil || newFn == nil {
+		s.Unk("ANCHOR", "bytecode.EncodeSrc / New", "-", "functions not found")
 		return
 	}
+	// conv (the sign extension helper) may be missing: the accessors then do the
+	// conversion themselves and are read path by path
 	u64T := types.Typ[types.Uint64]
 	intT := types.Typ[types.Int]
 	pos := p.Pos(encFn.Pos())
@@ -232,7 +242,7 @@ func (e *eng) instr() {
 			o := &absint.Oracle{}
 			in := absint.NewInterp(p.SSA, o)
 			in.Hooks.Call = func(in *absint.Interp, callee *ssa.Function, args []absint.Val, site ssa.Instruction) (absint.Val, bool) {
-				if callee == conv {
+				if conv != nil && callee == conv {
 					// the decoded field is the argument of convImm
 					if fs, ok2 := fields(args[0]); ok2 && len(fs) == 1 {
 						f, ok = fs[0], true
@@ -242,9 +252,41 @@ func (e *eng) instr() {
 				return nil, false
 			}
 			res, end := in.Run(fn, []absint.Val{absint.NewVar("INSTR", typeT)})
+			if i == 1 {
+				if e.addrFns == nil {
+					e.addrFns = map[*ssa.Function]int{}
+				}
+				e.addrFns[fn] = k
+			}
 			if end == nil && i == 0 {
 				if fs, ok2 := fields(res); ok2 && len(fs) == 1 {
 					f, ok = fs[0], true
+				}
+			}
+			if !ok && i == 1 {
+				// no conversion helper: every path of the accessor must decode the
+				// same single field (plain, or sign extended under a test of its top bit)
+				same := true
+				var first *field
+				for _, po := range e.eval(fn, []absint.Val{absint.NewVar("INSTR", typeT)}) {
+					if po.end != nil {
+						same = false
+						break
+					}
+					fs, ok2 := fields(po.res)
+					if !ok2 || len(fs) != 1 {
+						same = false
+						break
+					}
+					if first == nil {
+						ff := fs[0]
+						first = &ff
+					} else if *first != fs[0] {
+						same = false
+					}
+				}
+				if same && first != nil {
+					f, ok = *first, true
 				}
 			}
 			if !ok {
@@ -333,11 +375,17 @@ func (e *eng) instr() {
 	// E2: accepted address range = representable range
 	if w, ok := writers[0]; ok {
 		W := width(w.addr.mask)
-		lo, hi := e.representable(conv, typeT, W)
+		var lo, hi *int64
+		if conv != nil {
+			lo, hi = e.representable(conv, typeT, W)
+		}
+		if lo == nil {
+			lo, hi = e.decodedRange(typeT, w.addr, W)
+		}
 		key := "bytecode.EncodeSrc / accepted address range is representable"
 		switch {
 		case lo == nil:
-			s.Unk("E2", key, p.Pos(conv.Pos()), "the decoding of an address field could not be read off convImm")
+			s.Unk("E2", key, pos, "the decoding of an address field could not be read off the accessor")
 		case accepted[0] == nil || accepted[1] == nil:
 			s.Bad("E2", key, pos, fmt.Sprintf("EncodeSrc does not bound srcAddr on both sides before packing it into %d bits: larger addresses are silently truncated", W))
 		case *accepted[0] >= *lo && *accepted[1] <= *hi:
@@ -438,6 +486,50 @@ func intervalOf(conds []absint.CondRec, v string) (lo, hi *int64) {
 }
 
 // representable evaluates convImm symbolically: sign extension from bit W-1?
+// decodedRange: what the operand-0 address accessor returns for the four
+// corner values of its field (0, the largest value with a clear top bit, the
+// smallest with it set, all ones), evaluated concretely. A two's complement
+// field decodes [min, -1] and [0, max]; an unsigned one [0, all ones].
+func (e *eng) decodedRange(typeT types.Type, fld field, W int) (lo, hi *int64) {
+	if W <= 1 || W > 62 {
+		return nil, nil
+	}
+	var acc *ssa.Function
+	for fn, k := range e.addrFns {
+		if k == 0 {
+			acc = fn
+		}
+	}
+	if acc == nil {
+		return nil, nil
+	}
+	dec := func(v uint64) (int64, bool) {
+		in := absint.NewInterp(e.p.SSA, &absint.Oracle{})
+		res, end := in.Run(acc, []absint.Val{absint.MkIntT(int64(v<<fld.lshift), typeT)})
+		if end != nil {
+			return 0, false
+		}
+		return absint.ConstInt(res)
+	}
+	top := uint64(1) << uint(W-1)
+	r0, ok0 := dec(0)
+	r1, ok1 := dec(top - 1)
+	r2, ok2 := dec(top)
+	r3, ok3 := dec(top<<1 - 1)
+	if !ok0 || !ok1 || !ok2 || !ok3 || r0 != 0 || r1 != int64(top-1) {
+		return nil, nil
+	}
+	switch {
+	case r2 == -int64(top) && r3 == -1:
+		l, h := r2, r1
+		return &l, &h
+	case r2 == int64(top) && r3 == int64(top<<1-1):
+		l, h := int64(0), r3
+		return &l, &h
+	}
+	return nil, nil
+}
+
 func (e *eng) representable(conv *ssa.Function, typeT types.Type, W int) (lo, hi *int64) {
 	if W <= 0 || W > 62 {
 		return nil, nil
